@@ -9,7 +9,7 @@
    `reachable c s` ranges over every schedule of the registering thread and the resolver threads (every interleaving
    at hook-point granularity: resolution before, during and after the registration);
    `terminal s` = no thread can take a step.  `wout c s` is the outcome of the claim that succeeded. *)
-From Cocls Require Import Base BaseProofs AdaptersDefs AdaptersInv AdaptersProofs.
+From Cocls Require Import Base BaseProofs AdaptersDefs AdaptersInv AdaptersProofs AdaptersOracle.
 Local Open Scope nat_scope.
 
 (* no schedule strands a registration or a resolver: when nothing can move, all threads ran to completion *)
@@ -99,6 +99,14 @@ Theorem c18_run_reachable : forall c fuel s sched tr,
   reachable c s -> reachable c (fst (run_sched c fuel s sched tr)).
 Proof. exact run_sched_reachable. Qed.
 Print Assumptions c18_run_reachable.
+
+(* the decidable form of the property that is run on the IMPLEMENTATION's traces accepts every trace of the model, for
+   every op list (valid or malformed), both engines and both value-type variants: the oracle demands nothing that the
+   proved model does not deliver, so a rejection is a behaviour outside every schedule of the model *)
+Theorem c18_oracle_accepts_model : forall seq isvoid ops,
+  adapt_oracle seq isvoid ops (adapt_run seq isvoid ops) = true.
+Proof. exact oracle_accepts_model. Qed.
+Print Assumptions c18_oracle_accepts_model.
 
 (* non-vacuity: future_conv with a throwing converter into a race of a value against p(drop) on three threads; the
    competitor wins, the converter is never called, the outer future gets await_canceled *)
